@@ -13,6 +13,7 @@
     istr   I            String(i) for an int64-kinded number Value i (decimal)
     litstr S            String(<numeric literal S>) (else `other`)
     pintstr S A         String(parseInt(s, a))
+    pintobj SA V S      parseInt(<string arg SA: p:hex primitive | o:hex object with logging toString | T throwing>, <scripted radix object>): value|call log
     argobj M R V S      Number.prototype.M.call(R, obj): obj = scripted valueOf (V) / toString (S); reply = result|call log
     nthis  M K          Number.prototype.M.call(<a this value of kind K>): `ok` or throw:TypeError
     rt     X L          Number(String(x))
@@ -75,6 +76,19 @@ def outOut (o : Out × Str) : String :=
    | .typeError => "throw:TypeError"
    | .thrown => "throw:SyntaxError") ++ "|" ++ (if o.2.isEmpty then "-" else String.ofList (o.2.map Char.ofNat))
 
+def strArg? (t : String) : Option StrArg :=
+  if t = "T" then some .throws
+  else match t.splitOn ":" with
+    | ["p", h] => (bytes? h).map .prim
+    | ["o", h] => (bytes? h).map .obj
+    | _ => none
+
+def poutOut (o : POut × Str) : String :=
+  (match o.1 with
+   | .num x => f64Out x
+   | .typeError => "throw:TypeError"
+   | .thrown => "throw:SyntaxError") ++ "|" ++ (if o.2.isEmpty then "-" else String.ofList (o.2.map Char.ofNat))
+
 def devOut (ds : List String) : String :=
   if ds.isEmpty then "-" else ",".intercalate ds
 
@@ -127,6 +141,12 @@ def handle (ws : List String) : String :=
   | ["nthis", _m, k] => match kind? k with
     | some k => reply (thisOut (numberMethodThis k)) (thisOut (Spec.numberMethodThis k)) []
     | none => "bad-op"
+  | ["pintobj", sa, v, sv] => match strArg? sa, items? v, items? sv with
+    | some sa, some vs, some ss =>
+      let sc : Script := ⟨vs, ss⟩
+      let dev : List String := match (Spec.toNumberObj sc st0).1 with | .val x => Spec.Dev.pint (.num x) | _ => []
+      reply (poutOut (parseIntWithObjects sa sc)) (poutOut (Spec.parseIntWithObjects sa sc)) dev
+    | _, _, _ => "bad-op"
   | ["argobj", m, r, v, sv] => match meth? m, recv? r, items? v, items? sv with
     | some m, some r, some vs, some ss =>
       let sc : Script := ⟨vs, ss⟩
